@@ -30,6 +30,7 @@ type (
 		Vars   []CVar
 		Body   CExpr
 		Trig   []CExpr
+		AltTrig [][]CExpr // further alternative trigger groups: { a } { b }
 	}
 	CStar struct{ X CExpr } // location set x[*] (assigns only)
 )
@@ -267,6 +268,20 @@ func (p *cparser) expr() CExpr {
 				break
 			}
 			p.expect("}")
+			for p.isOp("{") { // alternative trigger groups
+				p.next()
+				var grp []CExpr
+				for {
+					grp = append(grp, p.expr())
+					if p.isOp(",") {
+						p.next()
+						continue
+					}
+					break
+				}
+				p.expect("}")
+				q.AltTrig = append(q.AltTrig, grp)
+			}
 		}
 		q.Body = p.expr()
 		return q
